@@ -23,11 +23,13 @@
 (* Properties: InvNotifyNode, InvNoFuture, InvMonotone (every delivery     *)
 (* satisfies MonitorObs!NotifyOK), InvFinalValue, ConvergesToLatest.       *)
 (* Deviations: Dev_HandleReuse (handle counter reused after a removal),    *)
-(* Dev_KeepOld (publish queue keeps the older notification of a handle).   *)
+(* Dev_KeepOld (publish queue keeps the older notification of a handle),   *)
+(* Dev_SplitNotify (ChangeNotification reads the value and sends outside   *)
+(* the lock: a stale notification can overtake a newer one).               *)
 (***************************************************************************)
 EXTENDS Integers, Sequences, FiniteSets, TLC
 
-CONSTANTS Nodes, MaxK, MaxH, MaxCh, Dev_HandleReuse, Dev_KeepOld
+CONSTANTS Nodes, MaxK, MaxH, MaxCh, Dev_HandleReuse, Dev_KeepOld, Dev_SplitNotify
 
 VARIABLES val,      \* val[n]: counter of the current value of node n
           wr,       \* wr[n]: [phase |-> "idle"|"called"|"applied", k]
@@ -35,6 +37,7 @@ VARIABLES val,      \* val[n]: counter of the current value of node n
           nextH,    \* monitor: nextClientHandle
           items,    \* server: set of [h, n]
           pendInit, \* nodes with a pending initial ChangeNotification goroutine
+          sampled,  \* deviation only: [n, k] read by a ChangeNotification goroutine that has not sent yet
           delItems, \* items whose asynchronous deletion is pending
           nch,      \* NotifyChannel (FIFO of [h, vn, k])
           pq,       \* publishQueue: set of [h, vn, k], at most one per h
@@ -43,14 +46,14 @@ VARIABLES val,      \* val[n]: counter of the current value of node n
           bad,      \* "" or the name of the first contract predicate a delivery / final read broke
           final     \* nodes already read after quiescence
 
-vars == <<val, wr, handles, nextH, items, pendInit, delItems, nch, pq, wire, o, bad, final>>
+vars == <<val, wr, handles, nextH, items, pendInit, sampled, delItems, nch, pq, wire, o, bad, final>>
 
 Obs == INSTANCE MonitorObs
 
 Init ==
     /\ val = [n \in Nodes |-> 0]
     /\ wr = [n \in Nodes |-> [phase |-> "idle", k |-> 0]]
-    /\ handles = {} /\ nextH = 0 /\ items = {} /\ pendInit = {} /\ delItems = {}
+    /\ handles = {} /\ nextH = 0 /\ items = {} /\ pendInit = {} /\ sampled = {} /\ delItems = {}
     /\ nch = <<>> /\ pq = {} /\ wire = <<>>
     /\ o = Obs!ObsInit(Nodes) /\ bad = "" /\ final = {}
 
@@ -67,20 +70,20 @@ WCall(n) ==
     /\ ~o.q /\ wr[n].phase = "idle" /\ wr[n].k < MaxK
     /\ wr' = [wr EXCEPT ![n] = [phase |-> "called", k |-> wr[n].k + 1]]
     /\ o' = Obs!OnWCall(o, n, wr[n].k + 1)
-    /\ UNCHANGED <<val, handles, nextH, items, pendInit, delItems, nch, pq, wire, bad, final>>
+    /\ UNCHANGED <<val, handles, nextH, items, pendInit, sampled, delItems, nch, pq, wire, bad, final>>
 
 WApply(n) ==
     /\ wr[n].phase = "called"
     /\ val' = [val EXCEPT ![n] = wr[n].k]
     /\ nch' = nch \o Notifs(n, wr[n].k)
     /\ wr' = [wr EXCEPT ![n].phase = "applied"]
-    /\ UNCHANGED <<handles, nextH, items, pendInit, delItems, pq, wire, o, bad, final>>
+    /\ UNCHANGED <<handles, nextH, items, pendInit, sampled, delItems, pq, wire, o, bad, final>>
 
 WRet(n) ==
     /\ wr[n].phase = "applied"
     /\ wr' = [wr EXCEPT ![n].phase = "idle"]
     /\ o' = Obs!OnWRet(o, n, wr[n].k)
-    /\ UNCHANGED <<val, handles, nextH, items, pendInit, delItems, nch, pq, wire, bad, final>>
+    /\ UNCHANGED <<val, handles, nextH, items, pendInit, sampled, delItems, nch, pq, wire, bad, final>>
 
 FreeHandles == (1..MaxH) \ {x.h : x \in handles}
 Add(n) ==
@@ -93,13 +96,30 @@ Add(n) ==
           /\ items' = items \cup {[h |-> h, n |-> n]}
     /\ pendInit' = pendInit \cup {n}
     /\ o' = Obs!OnAdd(o, n)
-    /\ UNCHANGED <<val, wr, delItems, nch, pq, wire, bad, final>>
+    /\ UNCHANGED <<val, wr, sampled, delItems, nch, pq, wire, bad, final>>
 
+\* ChangeNotification on its own goroutine (initial value after CreateMonitoredItems, or an
+\* application announcing a change): under Mu, reading the value and sending are one step.
 InitNotify(n) ==
+    /\ ~Dev_SplitNotify
     /\ n \in pendInit
     /\ nch' = nch \o Notifs(n, val[n])
     /\ pendInit' = pendInit \ {n}
-    /\ UNCHANGED <<val, wr, handles, nextH, items, delItems, pq, wire, o, bad, final>>
+    /\ UNCHANGED <<val, wr, handles, nextH, items, sampled, delItems, pq, wire, o, bad, final>>
+
+\* deviation: the lock is released after the item lookup; reading the value and sending are
+\* two steps and a notification of the dispatcher can get in between
+InitSample(n) ==
+    /\ Dev_SplitNotify /\ n \in pendInit
+    /\ sampled' = sampled \cup {[n |-> n, k |-> val[n]]}
+    /\ pendInit' = pendInit \ {n}
+    /\ UNCHANGED <<val, wr, handles, nextH, items, delItems, nch, pq, wire, o, bad, final>>
+
+InitSend(x) ==
+    /\ Dev_SplitNotify /\ x \in sampled
+    /\ nch' = nch \o Notifs(x.n, x.k)
+    /\ sampled' = sampled \ {x}
+    /\ UNCHANGED <<val, wr, handles, nextH, items, pendInit, delItems, pq, wire, o, bad, final>>
 
 Remove(n) ==
     /\ ~o.q /\ n \in o.mon
@@ -107,12 +127,12 @@ Remove(n) ==
         /\ handles' = handles \ hs
         /\ delItems' = delItems \cup hs
     /\ o' = Obs!OnRemove(o, n)
-    /\ UNCHANGED <<val, wr, nextH, items, pendInit, nch, pq, wire, bad, final>>
+    /\ UNCHANGED <<val, wr, nextH, items, pendInit, sampled, nch, pq, wire, bad, final>>
 
 SrvDelete(it) ==
     /\ it \in delItems
     /\ items' = items \ {it} /\ delItems' = delItems \ {it}
-    /\ UNCHANGED <<val, wr, handles, nextH, pendInit, nch, pq, wire, o, bad, final>>
+    /\ UNCHANGED <<val, wr, handles, nextH, pendInit, sampled, nch, pq, wire, o, bad, final>>
 
 Collect ==
     /\ nch # <<>>
@@ -120,12 +140,12 @@ Collect ==
            old == {x \in pq : x.h = e.h}
        IN pq' = IF Dev_KeepOld /\ old # {} THEN pq ELSE (pq \ old) \cup {e}
     /\ nch' = Tail(nch)
-    /\ UNCHANGED <<val, wr, handles, nextH, items, pendInit, delItems, wire, o, bad, final>>
+    /\ UNCHANGED <<val, wr, handles, nextH, items, pendInit, sampled, delItems, wire, o, bad, final>>
 
 Publish ==
     /\ pq # {}
     /\ wire' = Append(wire, pq) /\ pq' = {}
-    /\ UNCHANGED <<val, wr, handles, nextH, items, pendInit, delItems, nch, o, bad, final>>
+    /\ UNCHANGED <<val, wr, handles, nextH, items, pendInit, sampled, delItems, nch, o, bad, final>>
 
 Deliver ==
     /\ wire # <<>>
@@ -139,14 +159,14 @@ Deliver ==
                           ELSE IF ~Obs!NodeOK(o, n, e.vn) THEN "node"
                           ELSE IF ~Obs!NoFuture(o, n, e.k) THEN "future"
                           ELSE IF ~Obs!Monotone(o, n, e.k) THEN "monotone" ELSE ""
-    /\ UNCHANGED <<val, wr, handles, nextH, items, pendInit, delItems, nch, pq, final>>
+    /\ UNCHANGED <<val, wr, handles, nextH, items, pendInit, sampled, delItems, nch, pq, final>>
 
 Quiesce ==
     /\ ~o.q /\ \A n \in Nodes : wr[n].phase = "idle"
     /\ o' = Obs!OnQuiesce(o)
-    /\ UNCHANGED <<val, wr, handles, nextH, items, pendInit, delItems, nch, pq, wire, bad, final>>
+    /\ UNCHANGED <<val, wr, handles, nextH, items, pendInit, sampled, delItems, nch, pq, wire, bad, final>>
 
-Drained == pendInit = {} /\ nch = <<>> /\ pq = {} /\ wire = <<>>
+Drained == pendInit = {} /\ sampled = {} /\ nch = <<>> /\ pq = {} /\ wire = <<>>
 
 FinalRead(n) ==
     /\ o.q /\ Drained /\ n \notin final
@@ -154,11 +174,13 @@ FinalRead(n) ==
     /\ bad' = IF bad # "" THEN bad
               ELSE IF ~Obs!FinalValueOK(o, n, n, val[n]) THEN "finalvalue"
               ELSE IF ~Obs!ConvergedOK(o, n, val[n]) THEN "converge" ELSE ""
-    /\ UNCHANGED <<val, wr, handles, nextH, items, pendInit, delItems, nch, pq, wire, o>>
+    /\ UNCHANGED <<val, wr, handles, nextH, items, pendInit, sampled, delItems, nch, pq, wire, o>>
 
 Next ==
     \/ \E n \in Nodes : WCall(n) \/ WApply(n) \/ WRet(n) \/ Add(n) \/ Remove(n) \/ InitNotify(n) \/ FinalRead(n)
     \/ \E it \in delItems : SrvDelete(it)
+    \/ \E n \in Nodes : InitSample(n)
+    \/ \E x \in sampled : InitSend(x)
     \/ Collect \/ Publish \/ Deliver \/ Quiesce
 
 Spec == Init /\ [][Next]_vars
